@@ -216,11 +216,27 @@ def run(prog, rep):
                 for t in n.targets:
                     if isinstance(t, ast.Name):
                         flag_vars.add(t.id)
+        def first_in_iteration(n, name):
+            """is the assignment ``n`` the first binding of ``name`` within its innermost loop body (or the function)?"""
+            scope = n
+            while getattr(scope, '_parent', None) is not None and not isinstance(scope._parent, (ast.For, ast.While, ast.FunctionDef)):
+                scope = scope._parent
+            owner = getattr(scope, '_parent', None)
+            if owner is None:
+                return True
+            for x in ast.walk(owner):
+                if x is n:
+                    continue
+                tg = x.targets if isinstance(x, ast.Assign) else ([x.target] if isinstance(x, ast.AugAssign) else [])
+                if any(isinstance(t_, ast.Name) and t_.id == name for t_ in tg) and (x.lineno, x.col_offset) < (n.lineno, n.col_offset) and \
+                        getattr(x, '_src_fn', None) == getattr(n, '_src_fn', None):
+                    return False
+            return True
         for n in walk_no_nested(fn):
             if isinstance(n, ast.Assign):
                 for t in n.targets:
                     if isinstance(t, ast.Name) and t.id in flag_vars and not \
-                            (isinstance(n.value, ast.Call) and call_name(n.value) == 'prop_diff'):
+                            (isinstance(n.value, ast.Call) and call_name(n.value) == 'prop_diff') and not first_in_iteration(n, t.id):
                         rep.instance('R4', f'{fq}: {norm(n)}')
                         rep.violation('R4', loc(mod, n), fq, norm(n),
                                       f'the modification flags in {t.id} are overwritten instead of accumulated (|=): '
